@@ -42,12 +42,17 @@ TYPE_CLASS = {"h1": "h1", "h1tls": "h1", "h2": "h2", "h2pk": "h2", "h2-1slot": "
               "socks-h2": "socks"}
 
 
+class TraceBoom(Exception):
+    """Raised by the caller's own trace callback (a caller-side failure, not an httpcore exception)."""
+
+
 class Sc:
     """A built scenario world."""
 
     def __init__(self, ctype: str, flavor: str, max_connections: int = 2, resp_delay: float = 1.0,
                  timeouts: dict | None = None, retries: int = 0, keepalive_expiry: float | None = None,
-                 n_probe: int = 3, legacy_proxy: bool = False, log_events: bool = True, interim: bool = False) -> None:
+                 n_probe: int = 3, legacy_proxy: bool = False, log_events: bool = True, interim: bool = False,
+                 trace_raise=None) -> None:
         t = TYPES[ctype]
         self.ctype = ctype
         self.max_connections = max_connections
@@ -102,6 +107,15 @@ class Sc:
         self.timeouts = timeouts
         self.phase = {}
         self.trace_yields = False
+        # (suffix, n): the caller's trace callback raises TraceBoom at the n-th event whose name ends with the suffix
+        self.trace_raise = tuple(trace_raise) if trace_raise else None
+        self.trace_raise_seen = 0
+
+    def _trace_boom(self, name):
+        if self.trace_raise is not None and name.endswith(self.trace_raise[0]):
+            self.trace_raise_seen += 1
+            if self.trace_raise_seen == self.trace_raise[1]:
+                raise TraceBoom(f"trace callback failed at {name}")
 
     def url(self, host="o.test", path="/x"):
         return f"{self.scheme}://{host}{path}"
@@ -113,6 +127,7 @@ class Sc:
         if is_async(self.flavor):
             async def trace(name, info):
                 _trace(ph, name, info, self)
+                self._trace_boom(name)
                 if self.trace_yields:
                     # a caller's trace callback that awaits something: one more suspension point - between an operation
                     # and whatever the library does with its result - at which a cancellation can arrive
@@ -120,6 +135,7 @@ class Sc:
         else:
             def trace(name, info):
                 _trace(ph, name, info, self)
+                self._trace_boom(name)
         ext = {"trace": trace}
         if self.timeouts:
             ext["timeout"] = dict(self.timeouts)
